@@ -193,11 +193,12 @@ def weight_function_positive(U, p, w, depth=5):
 
 
 @st.composite
-def weight_magnitude(draw, c):
+def weight_magnitude(draw, c, wide=False):
     """The same rational curve with all its weights multiplied by a common factor (weights are homogeneous):
-    one case in three.  Tolerance decisions must not depend on that factor."""
-    if c.get("w") is not None and draw(st.integers(0, 2)) == 0:
-        f = draw(st.sampled_from([F(1, 10 ** 4), F(10 ** 4), F(1, 1000), F(10 ** 6), F(1, 10 ** 6)]))
+    one case in three (one in two over a wider range with ``wide``).  Nothing may depend on that factor."""
+    if c.get("w") is not None and draw(st.integers(0, 1 if wide else 2)) == 0:
+        f = draw(st.sampled_from([F(1, 10 ** 4), F(10 ** 4), F(1, 1000), F(10 ** 6), F(1, 10 ** 6)] +
+                                 ([F(1, 10 ** 6), F(1, 10 ** 9), F(1, 10 ** 12), F(10 ** 9)] if wide else [])))
         c = dict(c, w=[x * f for x in c["w"]])
     return c
 
